@@ -118,6 +118,7 @@ CHUNK = 12
 def roots(tier, seed):
     n = len(tempo_lists(tier, seed))
     r = [dict(kind="tempo", start=s, stop=min(n, s + CHUNK)) for s in range(0, n, CHUNK)]
+    r += [dict(kind="large", args=list(a)) for a in ([(40, 300, 4), (300, 3000, 4), (300, 3000, 3)] if tier == "quick" else [(40, 300, 4), (300, 3000, 4), (300, 3000, 3), (1200, 20000, 4), (1200, 5000, 7)])]
     r += [dict(kind="snapper", part=p) for p in range(4)]
     r += [dict(kind="snap_arith", metronome=m) for m in range(1, 9)]
     r += [dict(kind="bpmlist")]
@@ -139,6 +140,8 @@ def explore(root, tier, ctx):
             check_tempo_list(kind, init, ch, QLEN[tier], ctx)
             if i + 1 < len(tl):
                 check_reuse(tl[i], tl[i + 1], ctx)
+    elif root["kind"] == "large":
+        check_large(*root["args"], ctx)
     elif root["kind"] == "snapper":
         check_snapper(root["part"], ctx)
     elif root["kind"] == "snap_arith":
@@ -152,6 +155,8 @@ def replay(case, ctx):
     if k == "tempo":
         ch = [(F_(b), m, me, F_(be)) for b, m, me, be in case["changes"]]
         check_tempo_list(case["family"], F_(case["init"]), ch, case.get("qlen", 3), ctx, only_query=case.get("query"))
+    elif k == "large":
+        check_large(case["n_changes"], case["n_queries"], case["metronome"], ctx)
     elif k == "reuse":
         check_reuse((case["family"], F_(case["init"]), [(F_(b), m, me, F_(be)) for b, m, me, be in case["changes"]]),
                     (case["family2"], F_(case["init2"]), [(F_(b), m, me, F_(be)) for b, m, me, be in case["changes2"]]), ctx)
@@ -308,6 +313,55 @@ def check_tempo_list(kind, init, ch, qlen, ctx, only_query=None):
                     ctx.check("beats.monotone", mono, site=dict(site0), case=case, observed=[str(x) for x in bt], expected="non-decreasing with time")
                 except Exception as e:
                     ctx.check("beats.raises", False, site=dict(site0, exc=type(e).__name__), case=case, observed=f"{type(e).__name__}: {e}"[:200], expected="beats")
+
+
+def check_large(n_changes, n_queries, m, ctx):
+    """size: a tempo list of n_changes changes (constant metronome m, gaps cycling through on-line and off-line values) queried
+    with ONE call of n_queries positions - unsorted, with duplicates, up to the end of the list and beyond."""
+    from reamber.algorithms.timing.TimingMap import TimingMap
+    from reamber.algorithms.timing.utils.BpmChangeSnap import BpmChangeSnap
+    from reamber.algorithms.timing.utils.Snapper import Snapper
+    from reamber.algorithms.timing.utils.snap import Snap
+
+    sn = Snapper()
+    gaps = [F(1, 2), F(3), F(4), F(5, 4), F(8), F(11, 4), F(m), F(2 * m) + F(1, 2)]
+    pos, ch = F(0), []
+    for i in range(n_changes):
+        ch.append((BPMS[i % 4] if i % 8 < 4 else BPMS2[i % 4], m, int(pos // m), pos % m))
+        pos += gaps[i % len(gaps)]
+    total = pos + 8
+    init = F(-2001, 2)
+    case = dict(kind="large", n_changes=n_changes, n_queries=n_queries, metronome=m)
+    site = dict(family="large", n_changes=n_changes)
+    ctx.state(("large", n_changes, n_queries, m), nontrivial=True)
+    ctx.case()
+    ctx.transition()
+    try:
+        tm = TimingMap.from_bpm_changes_snap(float(init), [BpmChangeSnap(float(b), mm, Snap(me, be, mm)) for b, mm, me, be in ch], False)
+    except Exception as e:
+        ctx.check("build.raises", False, site=dict(site, exc=type(e).__name__), case=case, observed=f"{type(e).__name__}: {e}"[:200], expected="a TimingMap")
+        return
+    ts = rt.change_times(init, ch)
+    q = []
+    for i in range(n_queries):
+        b = (F((i * 7919) % int(total * 4), 4)) if i % 5 else (F((i * 31) % int(total * 4), 4))  # quarter-beat grid, duplicates among them
+        q.append((int(b // m), b % m))
+    exp = [rt.offset_of(init, ch, me, be, ts) for me, be in q]
+    ctx.transition()
+    try:
+        o = tm.offsets([Snap(me, be, m) for me, be in q])
+        ok = len(o) == len(exp) and all(close(x, e) for x, e in zip(o, exp))
+        bad = [(i, float(x), float(e)) for i, (x, e) in enumerate(zip(o, exp)) if not close(x, e)][:5]
+        ctx.check("offsets.value", ok, site=site, case=case, observed=bad, expected="piecewise-linear integration, in query order")
+        if ok:
+            s2 = tm.snaps(list(o), sn)
+            bad2 = [(i, int(a.measure), str(a.beat), me, str(be)) for i, (a, (me, be)) in enumerate(zip(s2, q)) if (a.measure, a.beat) != (me, be)][:5]
+            ctx.check("roundtrip.on_grid", not bad2, site=site, case=case, observed=bad2, expected="the queried positions")
+            bt = [F_(x) for x in tm.beats(list(o), sn)]
+            bad3 = [(i, str(x), str(m * me + be)) for i, (x, (me, be)) in enumerate(zip(bt, q)) if x != m * me + be][:5]
+            ctx.check("beats.distance", not bad3, site=site, case=case, observed=bad3, expected="metronome * measure + beat")
+    except Exception as e:
+        ctx.check("offsets.raises", False, site=dict(site, exc=type(e).__name__), case=case, observed=f"{type(e).__name__}: {e}"[:200], expected="offsets / snaps / beats")
 
 
 def check_reuse(a, b, ctx):
